@@ -382,6 +382,42 @@ pub fn run(tier: &str) -> i32 {
             }
         }
     });
+    // ---- part A2: EVERY cut of the first 96 bytes of every pool stream as the first call (so every
+    // suspended state x every number of bits left pending in the bit buffer is a start state), then
+    // the reduced second-call product (which contains "no input, no room", "one byte", "the rest")
+    let mut cut_firsts: Vec<Call> = vec![];
+    for (pi, p) in pool.iter().enumerate() {
+        for k in 1..=p.len().min(96) {
+            for &(f, ol, op) in &[(F_MORE, 32768usize, 0usize), (F_MORE | F_FLAT, 40000, 0), (F_MORE | F_ZLIB | F_FLAT, 40000, 7)] {
+                if !th && (pi + k) % 2 != 0 && f != F_MORE | F_FLAT {
+                    continue;
+                }
+                cut_firsts.push(Call { src: pi, off: 0, n: k, gar: 0, flags: f, out_len: ol, out_pos: op, budget: usize::MAX });
+            }
+        }
+    }
+    if !th && std::env::var("MC_PART").map(|p| p == "fast").unwrap_or(false) {
+        cut_firsts = cut_firsts.into_iter().step_by(2).collect();
+    }
+    let accs_a2 = par_for(cut_firsts.len(), Acc::default, |i, acc| {
+        watchdog::tick(7_000_000 + i as u64, 0);
+        let c1 = cut_firsts[i];
+        let mut out = vec![0u8; 40001];
+        let mut r1 = DecompressorOxide::new();
+        let Some((st1, cons1)) = ctx.call(&mut r1, &c1, &mut out, &[], acc, false, false) else { return };
+        if HOOKS {
+            acc.states.insert(fp(&r1));
+        }
+        let failed1 = st1 == TINFLStatus::Failed;
+        let adler1 = st1 == TINFLStatus::Adler32Mismatch;
+        let seconds = second_calls(&c1, cons1, &pool, &reduced_flags, false);
+        for c2 in seconds.iter() {
+            let mut r2 = r1.clone();
+            let h = [c1];
+            ctx.call(&mut r2, c2, &mut out, &h, acc, failed1, adler1);
+            acc.histories += 1;
+        }
+    });
     // ---- part B: inflate() wrapper with arbitrary (input, room, flush) two-call histories -----
     let mut inputs: Vec<Vec<u8>> = vec![];
     for a in 0..=255u8 {
@@ -464,7 +500,7 @@ pub fn run(tier: &str) -> i32 {
     let mut statuses = BTreeSet::new();
     let mut fails = BTreeSet::new();
     let (mut badparam, mut sticky) = (0, 0);
-    for a in accs {
+    for a in accs.into_iter().chain(accs_a2) {
         calls += a.calls;
         hist += a.histories;
         states.extend(a.states);
@@ -481,6 +517,7 @@ pub fn run(tier: &str) -> i32 {
     rep.set("histories_inflate_wrapper", json!(infl_n));
     rep.set("vector_function_evaluations", json!(vec_evals));
     rep.set("first_calls", json!(firsts.len()));
+    rep.set("first_calls_every_cut", json!(cut_firsts.len()));
     rep.set("flag_sets", json!(all_flags.len()));
     rep.set("bad_geometry_calls", json!(badparam));
     rep.set("sticky_failure_checks", json!(sticky));
